@@ -5,6 +5,7 @@ cd /verif
 export GOFLAGS=-mod=mod GOPROXY=off GOSUMDB=off GOTOOLCHAIN=local
 mkdir -p bin evidence replays .build
 go build -o bin/vcheck ./cmd/vcheck
+go build -o bin/mutgen ./tools/mutgen   # only used by tools/mutcampaign.py, not by any check
 # warm the cache (plain and race builds of the check binary)
 go test -c -tags verif -vet=off -o .build/warm.test ./checks
 go test -c -tags verif -vet=off -race -o .build/warm.race.test ./checks
